@@ -17,7 +17,7 @@ Pos(q, x) == CHOOSE k \in 1..Len(q) : q[k] = x
 Prev == IF l = 1 THEN [inDo |-> <<>>, ret |-> [r \in 1..N |-> "none"], dos |-> <<>>] ELSE T.ev[l - 1].st
 Arrivals == SelectSeq([k \in 1..l |-> T.ev[k].act], LAMBDA a : a.a = "arrive")
 ArrOrder == [k \in 1..Len(Arrivals) |-> Arrivals[k].r]
-Cancelled(r) == \E k \in 1..l : T.ev[k].act.a = "cancel" /\ T.ev[k].act.r = r
+Cancelled(r) == \E k \in 1..l : (T.ev[k].act.a = "cancel" /\ T.ev[k].act.r = r) \/ (T.ev[k].act.a = "fincan" /\ T.ev[k].act.c = r)
 Last == l = Len(T.ev)
 
 \* "at every instant the number of requests in flight is at most the total limit and, per path, the endpoint limit"
@@ -38,5 +38,5 @@ C16_CancelledNeverRuns == J => \A r \in 1..N : (E.st.ret[r] = "err") => (T.ev[Le
 C16_IdleAtEnd == (J /\ Last) => (T.allReturned /\ T.hung = <<>> /\ T.queueObjects = 0 /\ T.probeAdmitted
                                  /\ \A k \in 1..Len(T.finalQ) : T.finalQ[k].processed = 0 /\ T.finalQ[k].waiting = 0)
 \* conformance only: the observed state is the one the specification predicts for this event
-K16_Conforms  == (J /\ E.alts = 1) => (E.settled /\ E.st = E.exp)
+K16_Conforms  == J => (E.settled /\ \E k \in 1..Len(E.exps) : E.st = E.exps[k])
 =============================================================================
